@@ -296,7 +296,14 @@ def span_rule(ctx, P, fns, floor=6):
             def pred(fn, cc, pol):
                 q = paths.rel(fn, cc, pol, subst=False)
                 return q is not None and q[1] == "==" and "0" in (q[0], q[2]) and re.search(r"->ptr\[\(\w+ - 1\)\]$", q[0] if q[2] == "0" else q[2]) is not None
-            return paths.guarded(f, c, pred)
+            if not paths.guarded(f, c, pred):
+                return False
+            # the test must be about the string the cursor points to now: it has to follow every advance of the cursor
+            for st in paths.stores(f):
+                if st["rec"] == "s3file_s" and st["field"] == "ptr" and paths.may_reach(f, st["node"], lambda e, c=c: e == c):
+                    if not paths.guarded_from(f, st["node"], c, pred):
+                        return False
+            return True
         for c in f.calls():
             cal = f.nodes[c].get("callee")
             args = f.args(c)
